@@ -1,8 +1,9 @@
 //! avh_c20 — multi-schema parsing executions (property C20).
 //!
-//! `run --scn FILE --out FILE --runs R [--runs-big R4] --seed S [--pairs P] [--threads T]`
+//! `run --scn FILE --out FILE --runs R [--runs-big R4] --seed S [--pairs P] [--max-perms M] [--threads T]`
 //!     every scenario line {form, ins, main} (written forms of spec/MultiParse.tla) is rendered as
-//!     Avro schema JSON texts; for EVERY permutation of the input list `Schema::parse_list`
+//!     Avro schema JSON texts; for EVERY permutation of the input list (up to M = 24 of them, i.e.
+//!     all for <= 4 inputs; a seeded sample beyond) `Schema::parse_list`
 //!     (form "list") or `Schema::parse_str_with_list` (form "with") is called R times (each call
 //!     builds a fresh HashMap = fresh hash seed) under catch_unwind.  Recorded per permutation:
 //!     the distinct outcomes with their counts; for "ok" the returned schemas projected to terms
@@ -121,6 +122,18 @@ fn project(sc: &Schema) -> J {
         Schema::Ref { name } => json!({"k":"ref","name":name.fullname(None)}),
         other => json!({"k":"other","text":format!("{other:?}")}),
     }
+}
+
+/// fingerprint of everything the crate keeps in a schema (Debug rendering: names, aliases, docs,
+/// attributes, lookup tables, ...), so that "identical across orderings" is not limited to what the
+/// projection above shows
+fn debug_fp(sc: &Schema) -> String {
+    let mut h: u64 = 0xcbf29ce484222325;
+    for b in format!("{sc:?}").bytes() {
+        h ^= b as u64;
+        h = h.wrapping_mul(0x100000001b3);
+    }
+    format!("{h:016x}")
 }
 
 fn none_schema_term() -> J {
@@ -410,7 +423,23 @@ fn datum_exchange(a: &Parsed, pa: &[usize], b: &Parsed, pb: &[usize], rng: &mut 
     }
 }
 
-fn execute(scn: &J, id: usize, runs: usize, runs_big: usize, pairs: usize, seed: u64) -> J {
+/// all permutations, or (beyond `max`) the identity, the reversal and seeded random ones
+fn chosen_permutations(n: usize, max: usize, rng: &mut Rng) -> Vec<Vec<usize>> {
+    let all = permutations(n);
+    if all.len() <= max {
+        return all;
+    }
+    let mut out: Vec<Vec<usize>> = vec![all[0].clone(), all[all.len() - 1].clone()];
+    while out.len() < max {
+        let c = &all[rng.below(all.len())];
+        if !out.contains(c) {
+            out.push(c.clone());
+        }
+    }
+    out
+}
+
+fn execute(scn: &J, id: usize, runs: usize, runs_big: usize, pairs: usize, max_perms: usize, seed: u64) -> J {
     let form = s(scn, "form").to_string();
     let ins: Vec<J> = scn["ins"].as_array().cloned().unwrap_or_default();
     // 24 and more permutations: fewer runs per permutation
@@ -420,7 +449,7 @@ fn execute(scn: &J, id: usize, runs: usize, runs_big: usize, pairs: usize, seed:
     let mut rng = Rng::new(seed ^ ((id as u64 + 1).wrapping_mul(0x9E37_79B9)));
     let mut obs: Vec<J> = vec![];
     let mut perms: Vec<PermRuns> = vec![];
-    for perm in permutations(ins.len()) {
+    for perm in chosen_permutations(ins.len(), max_perms, &mut rng) {
         let tx: Vec<&String> = perm.iter().map(|&i| &texts[i]).collect();
         let mut seen: Vec<(String, J, usize)> = vec![];
         let mut pr = PermRuns { perm: perm.clone(), first_ok: None, last_ok: None };
@@ -430,9 +459,11 @@ fn execute(scn: &J, id: usize, runs: usize, runs_big: usize, pairs: usize, seed:
                 Outcome::Ok(p) => json!({"status":"ok",
                     "res": p.list.iter().map(project).collect::<Vec<_>>(),
                     "main": p.main.as_ref().map(project).unwrap_or_else(none_schema_term),
+                    "dbg": p.list.iter().map(debug_fp).collect::<Vec<_>>(),
+                    "dbgmain": p.main.as_ref().map(debug_fp).unwrap_or_default(),
                     "resolved": resolved_outcome(p), "err": ""}),
-                Outcome::Err(e) => json!({"status":"err","res":[],"main":none_schema_term(),"resolved":"na","err":e}),
-                Outcome::Panic(e) => json!({"status":"panic","res":[],"main":none_schema_term(),"resolved":"na","err":e}),
+                Outcome::Err(e) => json!({"status":"err","res":[],"main":none_schema_term(),"dbg":[],"dbgmain":"","resolved":"na","err":e}),
+                Outcome::Panic(e) => json!({"status":"panic","res":[],"main":none_schema_term(),"dbg":[],"dbgmain":"","resolved":"na","err":e}),
             };
             let key = rec.to_string();
             match seen.iter_mut().find(|x| x.0 == key) {
@@ -482,6 +513,7 @@ fn cmd_run(a: &Args) -> i32 {
     let runs = a.usize("runs", 20);
     let runs_big = a.usize("runs-big", runs);
     let pairs = a.usize("pairs", 2);
+    let max_perms = a.usize("max-perms", 24);
     let seed = a.u64("seed", 1);
     let threads = a.usize("threads", 4).max(1);
     let scns: Vec<J> = match lines.iter().map(|l| serde_json::from_str(l)).collect::<Result<_, _>>() {
@@ -500,7 +532,7 @@ fn cmd_run(a: &Args) -> i32 {
                     let mut out = vec![];
                     let mut i = t;
                     while i < scns.len() {
-                        out.push((i, execute(&scns[i], i, runs, runs_big, pairs, seed).to_string()));
+                        out.push((i, execute(&scns[i], i, runs, runs_big, pairs, max_perms, seed).to_string()));
                         i += threads;
                     }
                     out
